@@ -360,6 +360,9 @@ func (c *XAConn) Commit(ctx context.Context) error {
 
 	now := time.Now()
 	if err := c.end(ctx, xa.TMSuccess); err != nil {
+		// XA END may not have taken effect, and an active branch cannot be rolled back: end it first
+		// (when the branch was ended, the server refuses this second END, which is harmless)
+		_ = c.xaResource.End(ctx, c.xaBranchXid.String(), xa.TMFail)
 		return c.commitErrorHandle(ctx, err)
 	}
 
